@@ -841,6 +841,10 @@ func holdsReference(t types.Type, depth int) bool {
 
 // stdReceiverReadOnly: methods of library types that read their receiver only.
 func stdReceiverReadOnly(n string) bool {
+	// (*regexp.Regexp).Longest changes how the shared pattern matches from then on
+	if n == "(*regexp.Regexp).Longest" || n == "(*regexp.Regexp).UnmarshalText" {
+		return false
+	}
 	return strings.HasPrefix(n, "(*regexp.Regexp).") || strings.HasPrefix(n, "(*strings.Replacer).")
 }
 
